@@ -343,20 +343,24 @@ def project(ctx):
 
 
 class RunModel(object):
-    """Follows the data paths of the tree. Flows are lists of projected contexts. The static
+    """Follows the data paths of the tree. Flows are lists of [data, projected context]. The static
     context of each UpdateContextFromStatic is an *input* (what that element itself reports),
     so this model states only: nothing but UpdateContextFromStatic moves static keys into the
-    run-time context."""
+    run-time context, and every value has its own copy of what was moved (a data element that
+    writes its value's data under a static sub-dictionary changes that value's context only)."""
 
-    def __init__(self, tree, ucfs_static):
+    INPUT = ((0, {}), (1, {}))
+
+    def __init__(self, tree, ucfs_static, src_data=None):
         self.ucfs_static = ucfs_static
+        self.src_data = src_data or {}
         self.probe_logs = {}
         kind = tree[0]
-        start = [] if kind == "src" else [{}]
-        self.outputs = self._item(tree, (), start)
+        start = [] if kind == "src" else [[d, dict(c)] for d, c in self.INPUT]
+        self.outputs = [c for _, c in self._item(tree, (), start)]
 
     def _copy(self, flow):
-        return [json.loads(json.dumps(c)) for c in flow]
+        return [[d, json.loads(json.dumps(c))] for d, c in flow]
 
     def _item(self, spec, path, flow):
         kind = spec[0]
@@ -365,7 +369,7 @@ class RunModel(object):
                 flow = self._item(ch, path + (i,), flow)
             return flow
         if kind == "src":
-            flow = [{}]   # its own flow of one value, whatever comes in
+            flow = [[d, {}] for d in self.src_data[path]]   # its own flow, whatever comes in
             for i, ch in enumerate(spec[1]):
                 flow = self._item(ch, path + (i,), flow)
             return flow
@@ -383,9 +387,12 @@ class RunModel(object):
         if kind in ("S", "St"):
             return flow
         if kind == "U":
-            return [merge(c, json.loads(json.dumps(self.ucfs_static[path]))) for c in flow]
+            return [[d, merge(c, json.loads(json.dumps(self.ucfs_static[path])))] for d, c in flow]
         if kind == "D":
-            self.probe_logs.setdefault(path, []).extend(self._copy(flow))
+            for d, c in flow:
+                if isinstance(c.get("Kn"), dict):
+                    c["Kn"]["w"] = d
+            self.probe_logs.setdefault(path, []).extend(c for _, c in self._copy(flow))
             return flow
         return flow   # M, W, C do not touch static keys
 
